@@ -525,7 +525,7 @@ func corrProg(o corrOpts) *res.Summary {
 			if o.replay != "" {
 				seed = seeds[0]
 			}
-			opt := gen.Options{Root: fmt.Sprintf("k%d", i), Ignores: i%3 != 0, TestFiles: i%4 == 1, NearMiss: i%5 == 2, Spelling: []int{0, 0, 0, 1, 3, 4, 5}[i%7]}
+			opt := gen.Options{Root: fmt.Sprintf("k%d", i), Ignores: i%3 != 0, TestFiles: i%4 == 1, NearMiss: i%5 == 2, Spelling: []int{0, 0, 0, 1, 3, 4, 5, 2}[i%8]}
 			if o.extra["testfiles"] == "1" {
 				opt.TestFiles = true
 			}
